@@ -90,6 +90,10 @@ def allOneSpec (t : IntTy) (v : Int) (b : Nat) : String :=
 
 def bases : List Nat := List.range' 2 35
 
+/-- the reference pattern of `to_integer` / `from_chars`: base 0 = the base is taken from the text -/
+def specParse (t : IntTy) (ws : Bool) (s : List Nat) (b : Int) : Spec.PRes :=
+  if b == 0 then Spec.parseAuto t ws s else Spec.parse t ws s b.toNat
+
 def step (_ : Unit) (l : Line) : Unit × String :=
   let bad := ((), "bad-op\tbad-op")
   let out (m s : String) := ((), m ++ "\t" ++ s)
@@ -119,19 +123,19 @@ def step (_ : Unit) (l : Line) : Unit × String :=
     | _, _, _ => bad
   | "from_chars" =>
     match ty, l.natList? "s", l.int? "base" with
-    | some t, some s, some b => out (fmtE fmtFC (fromChars t s b)) (fmtP (Spec.parse t false s b.toNat))
+    | some t, some s, some b => out (fmtE fmtFC (fromChars t s b)) (fmtP (specParse t false s b))
     | _, _, _ => bad
   | "to_integer" =>
     match ty, l.natList? "s", l.int? "base", l.nat? "ws" with
     | some t, some s, some b, some ws =>
-      out (fmtE fmtTI (toInteger t (ws != 0) s b)) (fmtPTI (Spec.parse t (ws != 0) s b.toNat))
+      out (fmtE fmtTI (toInteger t (ws != 0) s b)) (fmtPTI (specParse t (ws != 0) s b))
     | _, _, _, _ => bad
   | "to_integer_nc" =>
     -- check_overflow = false: a value that is not representable is outside the option's contract (`*`);
     -- the model still says what the code does there (wrap-around), which the correspondence run compares
     match ty, l.natList? "s", l.int? "base", l.nat? "ws" with
     | some t, some s, some b, some ws =>
-      let sp := Spec.parse t (ws != 0) s b.toNat
+      let sp := specParse t (ws != 0) s b
       out (fmtE fmtTI (toIntegerNC t (ws != 0) s b)) (match sp with | .range _ => "*" | _ => fmtPTI sp)
     | _, _, _, _ => bad
   | "cstr" =>
@@ -141,8 +145,13 @@ def step (_ : Unit) (l : Line) : Unit × String :=
       if fn.startsWith "ato" then
         out (fmtE toString (ato t s)) (if sp.erange then "*" else toString sp.value)
       else
-        let f := fun (r : Int × Nat) => s!"{r.1},{r.2},0"
-        out (fmtE f (cstrto t s b)) s!"{sp.value},{sp.endPos},{fmtBool sp.erange}"
+        let f := fun (r : Int × Nat) => s!"{r.1},{r.2}"
+        out (fmtE f (cstrto t s b)) s!"{sp.value},{sp.endPos}"
+    | _, _, _ => bad
+  | "cstr_erange" =>
+    -- `errno == ERANGE` of the C library against the `erange` flag of the spec; the implementation has no errno
+    match fnTy fn, l.natList? "s", l.int? "base" with
+    | some t, some s, some b => out "*" (fmtBool (Spec.strto t (cstrOf s) b.toNat).erange)
     | _, _, _ => bad
   | "sto" =>
     match fnTy fn, l.natList? "s", l.int? "base" with
